@@ -237,7 +237,7 @@ def vec_nodes(n=3, full=True):
             ("dot", v, ("vbin", "-", v, ("arr", cs))),
             ("dot", ("slice", v, None, None, -1), ("vbin", "*", v, w), "matmul"),
             ("lincomb", cs, ("vbin", "*", v, v) if False else ("vbin", "*", v, ("sc", ("sym", "c")))),
-            ("dot", v, ("matvec", [r + [0.0] * (n - len(r)) for r in [[1.0, 2.0, -1.0][:n], [0.0, ("sym", "a11"), 3.0][:n], [2.0, 0.5, 1.0][:n]][:n]], v)),
+            ("dot", v, ("matvec", [[(("sym", "a11") if (i, j) == (1, 1) else float(((i * 2 + j * 3) % 5) - 2)) for j in range(n)] for i in range(n)], v)),
             ("quad", v, Q, "dot"),
             ("norm", ("vbin", "-", v, w), 2),
             ("norm", ("vbin", "*", v, ("sc", 3.0)), 1),
@@ -317,6 +317,15 @@ def scalar_family(tier):
             for z in (X, C, ("num", 2.0), Z):
                 out.append(("bin", op1, ("bin", op2, X, Y), z))
                 out.append(("bin", op1, z, ("bin", op2, X, Y)))
+    # sub-trees without variables (functions of parameters / constants only) and parameters in
+    # every operand position
+    for op in ALL_UNARY:
+        out.append(("bin", "*", ("un", op, P), X))
+        out.append(("bin", "+", ("un", op, ("bin", "*", P, ("num", 0.5))), ("un", op, X)))
+    for op in BINOPS:
+        out.append(("bin", "+", ("bin", op, P, ("param", "q")), X))
+        out.append(("bin", op, ("bin", "+", X, Y), ("bin", "*", P, ("param", "q"))))
+    out += [("bin", "**", ("bin", "+", X, Y), P), ("bin", "**", P, ("bin", "*", X, Y)), ("un", "exp", ("un", "neg", ("bin", "*", P, P)))]
     # vector / matrix reductions alone and composed with scalars
     vn = vec_nodes(3, full=True)
     out += vn
@@ -418,6 +427,16 @@ def chunks(lst, n):
 # --------------------------------------------------------------------------
 # deciding one obligation
 # --------------------------------------------------------------------------
+DEFER = None   # when a list: decide() only records the obligation (discharged later under the path's FINAL condition)
+
+
+def discharge_deferred(deferred, pc):
+    out = []
+    for (claim, dom, what, sig, payload, allv, qt, weak_sat) in deferred:
+        out.append(decide(claim, pc, dom, what, sig, payload, allv, qt, weak_sat))
+    return out
+
+
 def decide(claim, pc, dom, what, sig, payload, allv, qt, weak_sat=False):
     """valid? -> proved / violation(with model values) / inconclusive.
     `claim` may be a list of claims: the conjunction is tried first and, when
@@ -425,6 +444,9 @@ def decide(claim, pc, dom, what, sig, payload, allv, qt, weak_sat=False):
     import z3
     from vf.engine import smt
     from vf.engine.sym import sbool_term
+    if DEFER is not None:
+        DEFER.append((claim, list(dom), what, sig, payload, list(allv), qt, weak_sat))
+        return dict(status="deferred", what=what)
     claims = None
     if isinstance(claim, (list, tuple)):
         claims = [sbool_term(c) for c in claim]
@@ -468,12 +490,100 @@ def vacuous_or_error(exc, pc, dom, what, item):
     return harness_error(f"concretisation: {exc}", item=item)
 
 
+TOUCH = False   # set by the 'touched' item variants: read-only queries are made on the tree before the operation under test
+
+
+def reachable(e):
+    """every object below e (post-order): expressions AND vector / matrix containers"""
+    out, seen = [], set()
+    stack = [(e, False)]
+    while stack:
+        o, done = stack.pop()
+        if done:
+            out.append(o)
+            continue
+        if id(o) in seen or isinstance(o, (int, float, str, bytes, np.ndarray)) or o is None:
+            continue
+        seen.add(id(o))
+        stack.append((o, True))
+        for attr in ("left", "right", "operand", "vector", "matrix", "expression", "base", "exponent"):
+            c = getattr(o, attr, None)
+            if c is not None and not callable(c):
+                stack.append((c, False))
+        ex = getattr(o, "_expressions", None)
+        if ex is not None:
+            for row in ex:
+                for x in (row if isinstance(row, (list, tuple)) else [row]):
+                    stack.append((x, False))
+    return out
+
+
+def touch(e):
+    """Read-only public queries on every object of the tree (variable sets, repr, hash,
+    degree, problem listing): none of them may change what a later operation returns."""
+    objs = reachable(e)
+    for o in objs:
+        for q in (lambda: o.get_variables(), lambda: repr(o), lambda: hash(o), lambda: str(o)):
+            try:
+                q()
+            except BaseException as ex:  # noqa: BLE001
+                if not isinstance(ex, Exception):
+                    raise
+    try:
+        from optyx import Problem
+        from optyx.core.expressions import Expression
+        if isinstance(e, Expression):
+            p = Problem().minimize(e)
+            p.variables
+            p.n_variables
+            repr(p)
+    except Exception:  # noqa: BLE001
+        pass
+    return e
+
+
+def touched_items(its, every, kinds):
+    """item variants that run the same item with the tree touched first (every k-th item of the given kinds)"""
+    sel = [it for it in its if it[0] in kinds]
+    return [("touched", it) for it in sel[::every]]
+
+
+def run_touched(check, inner):
+    global TOUCH
+    TOUCH = True
+    try:
+        rr = check(inner)
+    finally:
+        TOUCH = False
+    for r in rr:
+        r["what"] = "[after read-only queries on the tree] " + str(r.get("what", ""))
+        if r.get("sig"):
+            r["sig"] += "|touched"
+        if isinstance(r.get("replay"), dict):
+            r["replay"]["touched"] = True
+    return rr
+
+
+def replay_touched(replay, payload):
+    global TOUCH
+    if not payload.get("touched"):
+        return None
+    TOUCH = True
+    try:
+        return replay(dict(payload, touched=False))
+    finally:
+        TOUCH = False
+
+
 def build_recipe(recipe, val, bounds=None, domains=None):
     b = Build(val, bounds=bounds, domains=domains)
     for d in declare(recipe):
         (b.V if d[0] == "vec" else b.M)(d)
     k = kind_of(recipe)
-    return b, getattr(b, k)(recipe)
+    e = getattr(b, k)(recipe)
+    if TOUCH:
+        touch(e)
+    return b, e
 
 
 def var_objects(b, names):
@@ -483,10 +593,18 @@ def var_objects(b, names):
 
 def safe_items(check_one, payload, show=repr):
     import traceback
+    from vf.engine.sym import SymbolicConcretisation
     out = []
     for r in payload:
         try:
             out += check_one(r)
+        except SymbolicConcretisation as e:
+            # raised while evaluating the REFERENCE formula: a constant sub-expression is outside the
+            # domain of its function (acos(2.0) is NaN): the recipe denotes nothing, nothing to check
+            if "nan" in str(e) or "inf" in str(e):
+                out.append(dict(status="conformance", what=f"reference undefined (constant outside a function's domain): {show(r)[:80]}", points=0))
+            else:
+                out.append(harness_error(f"{type(e).__name__}: {e}", item=show(r)[:300], tb=traceback.format_exc()[-1500:]))
         except Exception as e:  # noqa: BLE001
             out.append(harness_error(f"{type(e).__name__}: {e}", item=show(r)[:300], tb=traceback.format_exc()[-1500:]))
     return out
